@@ -174,167 +174,7 @@ func diffSnap(a, b *snap) string {
 	return strings.Join(out, "; ")
 }
 
-// invariants checks the structural claims of C07 on the server's own JSON.
-func invariants(repos map[string]*dvc.RepoInfo) []string {
-	var bad []string
-	seenUUID := map[string]string{}
-	seenVer := map[uint32]string{}
-	for root, ri := range repos {
-		if ri == nil {
-			continue
-		}
-		byVer := map[uint32]*dvc.Node{}
-		nroots := 0
-		for key, n := range ri.DAG.Nodes {
-			if key != n.UUID {
-				bad = append(bad, fmt.Sprintf("uuid-key-mismatch: repo %s node keyed %q has UUID %q", root, key, n.UUID))
-			}
-			if prev, dup := seenUUID[n.UUID]; dup {
-				bad = append(bad, fmt.Sprintf("duplicate-uuid: %s in repos %s and %s", n.UUID, prev, root))
-			}
-			seenUUID[n.UUID] = root
-			if prev, dup := seenVer[n.VersionID]; dup {
-				bad = append(bad, fmt.Sprintf("duplicate-version-id: %d (%s and %s)", n.VersionID, prev, n.UUID))
-			}
-			seenVer[n.VersionID] = n.UUID
-			byVer[n.VersionID] = n
-			if len(n.Parents) == 0 {
-				nroots++
-				if n.UUID != ri.Root || n.UUID != ri.DAG.Root {
-					bad = append(bad, fmt.Sprintf("extra-root: node %s has no parents but repo root is %s", n.UUID, ri.Root))
-				}
-			}
-		}
-		if nroots != 1 {
-			bad = append(bad, fmt.Sprintf("root-count: repo %s has %d parentless nodes", root, nroots))
-		}
-		count := func(xs []uint32, v uint32) int {
-			k := 0
-			for _, x := range xs {
-				if x == v {
-					k++
-				}
-			}
-			return k
-		}
-		for _, n := range ri.DAG.Nodes {
-			for _, p := range n.Parents {
-				pn := byVer[p]
-				if pn == nil {
-					bad = append(bad, fmt.Sprintf("dangling-parent: node %s (v%d) names parent v%d which is not in the repo", n.UUID, n.VersionID, p))
-					continue
-				}
-				if k, k2 := count(pn.Children, n.VersionID), count(n.Parents, p); k != k2 {
-					bad = append(bad, fmt.Sprintf("mirror: node %s lists parent %s %d times, which lists it %d times as child", n.UUID, pn.UUID, k2, k))
-				}
-				if !pn.Locked {
-					bad = append(bad, fmt.Sprintf("uncommitted-parent: node %s hangs off uncommitted %s", n.UUID, pn.UUID))
-				}
-			}
-			for _, ch := range n.Children {
-				cn := byVer[ch]
-				if cn == nil {
-					bad = append(bad, fmt.Sprintf("dangling-child: node %s (v%d) names child v%d which is not in the repo", n.UUID, n.VersionID, ch))
-					continue
-				}
-				if k, k2 := count(cn.Parents, n.VersionID), count(n.Children, ch); k != k2 {
-					bad = append(bad, fmt.Sprintf("mirror: node %s lists child %s %d times, which lists it %d times as parent", n.UUID, cn.UUID, k2, k))
-				}
-			}
-		}
-		// reachability + acyclicity (Kahn over parent links)
-		if rn := ri.DAG.Nodes[ri.Root]; rn != nil {
-			reach := map[uint32]bool{}
-			var walk func(v uint32, depth int)
-			walk = func(v uint32, depth int) {
-				if reach[v] || depth > 10000 {
-					return
-				}
-				reach[v] = true
-				if n := byVer[v]; n != nil {
-					for _, ch := range n.Children {
-						walk(ch, depth+1)
-					}
-				}
-			}
-			walk(rn.VersionID, 0)
-			for v, n := range byVer {
-				if !reach[v] {
-					bad = append(bad, fmt.Sprintf("unreachable: node %s (v%d) not reachable from root", n.UUID, v))
-				}
-			}
-			indeg := map[uint32]int{}
-			for v, n := range byVer {
-				indeg[v] += 0
-				for range n.Parents {
-					indeg[v]++
-				}
-			}
-			var q []uint32
-			for v, d := range indeg {
-				if d == 0 {
-					q = append(q, v)
-				}
-			}
-			done := 0
-			for len(q) > 0 {
-				v := q[0]
-				q = q[1:]
-				done++
-				if n := byVer[v]; n != nil {
-					for _, ch := range n.Children {
-						if _, ok := indeg[ch]; ok {
-							indeg[ch]--
-							if indeg[ch] == 0 {
-								q = append(q, ch)
-							}
-						}
-					}
-				}
-			}
-			if done != len(byVer) {
-				bad = append(bad, fmt.Sprintf("cycle: only %d of %d nodes in topological order", done, len(byVer)))
-			}
-		}
-		// branches: named branches are one chain with one head; no branch forks through single-parent children
-		byBranch := map[string][]*dvc.Node{}
-		for _, n := range ri.DAG.Nodes {
-			byBranch[n.Branch] = append(byBranch[n.Branch], n)
-		}
-		for b, ns := range byBranch {
-			heads, starts := 0, 0
-			for _, n := range ns {
-				same := 0
-				for _, ch := range n.Children {
-					if cn := byVer[ch]; cn != nil && cn.Branch == b && len(cn.Parents) == 1 {
-						same++
-					}
-				}
-				if same > 1 {
-					bad = append(bad, fmt.Sprintf("branch-fork: node %s has %d single-parent children on branch %q", n.UUID, same, b))
-				}
-				if b != "" {
-					if same == 0 {
-						heads++
-					}
-					inb := false
-					for _, p := range n.Parents {
-						if pn := byVer[p]; pn != nil && pn.Branch == b {
-							inb = true
-						}
-					}
-					if !inb {
-						starts++
-					}
-				}
-			}
-			if b != "" && (heads != 1 || starts != 1) {
-				bad = append(bad, fmt.Sprintf("branch-chain: branch %q has %d heads and %d starting nodes", b, heads, starts))
-			}
-		}
-	}
-	return bad
-}
+func invariants(repos map[string]*dvc.RepoInfo) []string { return dvc.CheckDAGInvariants(repos) }
 
 // agree compares the server JSON with the model built from acknowledged requests.
 func (wd *world) agree(repos map[string]*dvc.RepoInfo) []string {
